@@ -7,8 +7,8 @@ import TdVerif.Lemmas.C08CatN
 namespace TdVerif.C08
 
 /-- `lazy.apply(fn)` for a pointwise `fn` is `dense.apply(fn)` -/
-theorem apply1_refines [Inhabited α] (L : Lazy α) (b : Shape) (keys : List String) (feat : String → Shape)
-    (hU : Uniform L b keys feat) (hne : L.members ≠ []) (g : α → α) :
+theorem apply1_refines [Inhabited α] [Inhabited β] (L : Lazy α) (b : Shape) (keys : List String) (feat : String → Shape)
+    (hU : Uniform L b keys feat) (hne : L.members ≠ []) (g : α → β) :
     absL (lazyApply1 L g) ≈ (absL L).apply1 g := by
   obtain ⟨m0, r0, hm⟩ : ∃ m r, L.members = m :: r := by
     cases h : L.members with
@@ -42,10 +42,10 @@ namespace TdVerif.C08
 
 /-- `lazy.apply(fn, other)` for a pointwise `fn` and an operand of the stack's batch size is
 `dense.apply(fn, other)`: piece `i` of `other` along the stack dim meets member `i` -/
-theorem apply2_refines [Inhabited α] (L : Lazy α) (b : Shape) (keys : List String) (feat : String → Shape)
-    (hU : Uniform L b keys feat) (hne : L.members ≠ []) (other : TD α)
-    (hob : other.batch = (absL L).batch) (g : α → α → α)
-    (L' : Lazy α) (h : lazyApply2 L other g = some L') :
+theorem apply2_refines [Inhabited α] [Inhabited β] [Inhabited γ] (L : Lazy α) (b : Shape) (keys : List String) (feat : String → Shape)
+    (hU : Uniform L b keys feat) (hne : L.members ≠ []) (other : TD β)
+    (hob : other.batch = (absL L).batch) (g : α → β → γ)
+    (L' : Lazy γ) (h : lazyApply2 L other g = some L') :
     L'.sd = L.sd ∧ L'.members.length = L.members.length ∧ absL L' ≈ (absL L).apply2 g other := by
   obtain ⟨m0, r0, hm⟩ : ∃ m r, L.members = m :: r := by
     cases h' : L.members with
